@@ -14,12 +14,16 @@ THEOREMS = [
     "C13_implements_reduce_names_own_class",
     "C13_implements_roundtrip_identity",
     "C13_empty_roundtrip_identity",
+    "C13_provides_roundtrip_identity_shared",
     "C13_provides_roundtrip_identity_live",
+    "C13_shared_declarations_are_current",
     "C13_provides_roundtrip_same_interfaces",
     "C13_provides_fresh_is_current",
     "C13_provides_roundtrip_fresh_process",
+    "C13_provides_roundtrip_reachable",
     "C13_classprovides_roundtrip_same_interfaces",
     "C13_object_with_declaration_roundtrip",
+    "C13_object_roundtrip_module_ordered",
     "C13_roundtrip_eq_hash",
 ]
 RULE = ("generated importable module: interface DAG of 1..5 interfaces (<= 2 bases, some in C3-inconsistent "
@@ -355,3 +359,4 @@ LEVEL_NOTE = ("Trusted: Coq kernel/vm_compute; the pickle module (GLOBAL/REDUCE/
               "arguments; the resolution order (flattened) is compared before/after but not modelled here. "
               "ClassProvides objects are rebuilt, not shared: `==`/hash of a directly pickled class.__provides__ are "
               "identity based and therefore False; per the task statement they are judged by their interfaces.")
+HAS_MODEL_OUT = False
